@@ -80,6 +80,16 @@ def make_module(with_raw_sense=True):
                 "connected": self.connected,
                 "n": len(m.log),
             }
+            # what the target really takes part in is decided by the task's
+            # direction and expected transfer length, as in libiscsi
+            ev["eff_out"] = None
+            if task.dir == m.SCSI_XFER_WRITE and dataout is not None:
+                try:
+                    ev["eff_out"] = dataout[: task.xferlen]
+                except TypeError:  # length-only stand-in buffer (harness.Huge)
+                    ev["eff_out"] = dataout
+            ev["eff_in"] = datain if task.dir == m.SCSI_XFER_READ else None
+            ev["eff_in_len"] = min(task.xferlen, _len(datain) or 0) if task.dir == m.SCSI_XFER_READ else 0
             m.log.append(ev)
             status, sense = 0, None
             if m.handler is not None:
